@@ -615,16 +615,34 @@ def cases(tier, seed):
 
 
 def _cases(tier, seed):
+    """Interleaved so that every workload kind runs even when the time budget cuts the list short."""
     reps = 5 if tier == "quick" else 40
-    for rep in range(reps):
-        for ci in range(len(CAT)):
-            yield {"gen": "sweep", "call": ci, "name": CAT[ci]["name"], "rep": rep}
-    for ci in range(len(OOM_CALLS)):
+
+    def sweep():
+        for rep in range(reps):
+            for ci in range(len(CAT)):
+                yield {"gen": "sweep", "call": ci, "name": CAT[ci]["name"], "rep": rep}
+
+    def oom():
         for rep in range(1 if tier == "quick" else 6):
-            yield {"gen": "oom", "call": ci, "rep": rep}
-    nprog = 12000 if tier == "quick" else 400000
-    for k in range(nprog):
-        yield {"gen": "program", "k": k}
+            for ci in range(len(OOM_CALLS)):
+                yield {"gen": "oom", "call": ci, "rep": rep}
+
+    def programs():
+        for k in range(12000 if tier == "quick" else 400000):
+            yield {"gen": "program", "k": k}
+
+    gens = [(sweep(), 4), (oom(), 1), (programs(), 8)]
+    live = True
+    while live:
+        live = False
+        for g, n in gens:
+            for _ in range(n):
+                c = next(g, None)
+                if c is None:
+                    break
+                live = True
+                yield c
 
 
 OK_EXC = (tskit.LibraryError, ValueError, TypeError, OverflowError, IndexError, KeyError, AttributeError, AssertionError,
@@ -675,6 +693,10 @@ def run_sweep(case, ctx):
     ctx.sig((entry["name"], kind, o.m.signature()), nontrivial=True)
     slots = entry["slots"]
     valid = [s.valid(o) for s in slots]
+    if case["call"] % 37 == 0:
+        ctx.sample({"call": entry["name"], "input": kind, "num_nodes": o.n, "sequence_length": o.L,
+                    "slots": [sl.name for sl in slots], "valid_args": [fmt(v) for v in valid],
+                    "adversarial_values_of_first_slot": [fmt(v) for v, _ in slots[0].adversarial(o)][:12] if slots else []})
     base = call_one(ctx, o, entry, list(valid), -1, False, f"{entry['name']}(valid args {[fmt(v) for v in valid]}) on {kind}")
     ctx.feature("baseline:" + ("ok" if base == "returned" else "raises"))
     if base != "returned":
